@@ -208,6 +208,21 @@ func modelString(rep *vc.FuncReport, ob *vc.Obligation) string {
 				b = append(b, fmt.Sprintf("%02x", ob.Model[fmt.Sprintf("%s[%d]", p.Name, k)]))
 			}
 			parts = append(parts, fmt.Sprintf("%s=len %d ref %#x [%s]", p.Name, ln, ob.Model[p.Name+".ref"], strings.Join(b, " ")))
+		case "struct":
+			var fs []string
+			var keys []string
+			for k := range ob.Model {
+				if strings.HasPrefix(k, p.Name+".") || strings.HasPrefix(k, p.Name+"(") {
+					keys = append(keys, k)
+				}
+			}
+			sort.Strings(keys)
+			for _, k := range keys {
+				if ob.Model[k] != 0 {
+					fs = append(fs, fmt.Sprintf("%s=%#x", strings.TrimPrefix(k, p.Name), ob.Model[k]))
+				}
+			}
+			parts = append(parts, fmt.Sprintf("%s={%s}", p.Name, strings.Join(fs, " ")))
 		default:
 			parts = append(parts, p.Name+"=?")
 		}
